@@ -32,8 +32,9 @@ def lookup_language(facts, f_try, adt, raw, table):
     input:  ALL.iter().copied().find(|v| v.raw() == bytes).ok_or(err).  Its language is raw() over the table."""
     from ..tables import table_search
     ts = table_search(facts, f_try, adt)
-    if ts is None or ts["mode"] != "exact" or ts["conds"]:
+    if ts is None or ts["conds"]:
         return None
+    ci = ts["mode"] != "exact"
     if look(ts["subject"]) != ("arg", 1):
         return None
     try:
@@ -48,6 +49,8 @@ def lookup_language(facts, f_try, adt, raw, table):
         accept.setdefault(b, v)      # find() returns the first match
     missing = [v for v in discr.values() if v not in ts["variants"]]
     inexact = ["the lookup table leaves out %s" % missing] if missing else []
+    if ci:
+        inexact.append("the table is searched with eq_ignore_ascii_case: every case variant of a canonical token is accepted (e.g. %r)" % (sorted(accept)[0].lower() if accept else b""))
     return accept, inexact
 
 
